@@ -249,14 +249,15 @@ def run_go(cases):
     inp = '\n'.join(' '.join([hx(t)] + [hx(d) for d in docs]) for t, docs in cases) + '\n'
     lines, rc, err = run_harness(['filter'], inp, timeout=1200)
     res = []
-    for i in range(0, len(lines) - 3, 4):
-        T, A, V, S = lines[i:i + 4]
+    for i in range(0, len(lines) - 4, 5):
+        T, A, V, S, R = lines[i:i + 5]
         d = {}
         f = T.split()[1:]
         d['tokens'] = None if f == ['PANIC'] else [(int(f[j]), bytes.fromhex(f[j + 1]) if f[j + 1] != '-' else b'') for j in range(0, len(f), 2)]
         d['ast'] = A[2:]
         d['verdicts'] = ''.join(V.split()[1:])
         d['search'] = ''.join(S.split()[1:])
+        d['again'] = d['verdicts'] if R.split()[1:] == ['same'] else ''.join(R.split()[1:])
         res.append(d)
     return res, rc, err
 
@@ -299,6 +300,11 @@ def gen_doc(rng):
                 u['profile'] = {'completed': rng.random() < 0.5, 'nick': rng.choice(STRS)}
             if rng.random() < 0.5:
                 u['friends'] = [rng.choice(STRS) for _ in range(rng.randint(0, 6))]
+            if rng.random() < 0.5:
+                # an object member that is itself called "length" (objects have no built-in length)
+                u['length'] = rng.choice(NUMS)
+                if 'profile' in u and rng.random() < 0.5:
+                    u['profile']['length'] = rng.choice(NUMS + [3, 2])
             d[k] = u
         else:
             d[k] = rng.choice([None, 1, 'x', True, [1], {'a': 1}])
@@ -339,12 +345,17 @@ def gen_path(rng):
         return 'user.profile.completed', 'bool'
     if r < 0.78:
         return 'user.profile.nick', 'str'
-    if r < 0.84:
+    if r < 0.82:
         return 'user.friends.length', 'num'
+    if r < 0.84:
+        return rng.choice(['user.length', 'user.profile.length']), 'num'
     if r < 0.88:
         return rng.choice(['tags.length', 'name.length', 'nums.length']), 'num'
-    if r < 0.93:
+    if r < 0.91:
         return 'nums[%d]' % rng.randint(0, 3), 'num'
+    if r < 0.93:
+        # a fractional subscript is rounded to the nearest element; one that rounds to the length is out of range
+        return 'nums[%s]' % rng.choice(['0.5', '1.5', '2.5', '3.5', '0.25', '0.75', '2.49', '3.75']), 'num'
     if r < 0.97:
         return 'items[%d].price' % rng.randint(0, 2), 'num'
     return 'tags[%d]' % rng.randint(0, 3), 'str'
@@ -487,7 +498,7 @@ def ref_parse(text):
             if take() == '.':
                 p.append(('key', take()))
             else:
-                p.append(('idx', int(take())))
+                p.append(('idx', int(math.floor(float(take()) + 0.5))))       # int(math.Round(x)) for x >= 0
                 if take() != ']':
                     raise SyntaxError
         return ('path', p)
